@@ -775,6 +775,14 @@ def m_zip(I, args, kwargs):
     return list(zip(*cols))
 
 
+def m_reversed(I, args, kwargs):
+    v = args[0]
+    if isinstance(v, (list, tuple)):
+        return iter(list(v)[::-1])
+    items = yield from I.iterate_all(v)
+    return iter(items[::-1])
+
+
 def m_sorted(I, args, kwargs):
     items = yield from I.iterate_all(args[0])
     key = kwargs.get("key")
@@ -1033,6 +1041,7 @@ _MODELS = {
     enumerate: m_enumerate,
     zip: m_zip,
     sorted: m_sorted,
+    reversed: m_reversed,
     str: m_str,
     repr: m_repr,
     format: m_format,
@@ -1044,7 +1053,7 @@ _MODELS = {
     itertools.chain: m_chain,
 }
 
-_ALWAYS = {any, all, next, iter, hasattr, getattr, sorted, enumerate, zip, list, tuple, range, len, int, str}
+_ALWAYS = {any, all, next, iter, hasattr, getattr, sorted, reversed, enumerate, zip, list, tuple, range, len, int, str}
 
 _METHOD_MODELS = {
     (int, "from_bytes"): m_int_from_bytes,
